@@ -10,17 +10,22 @@ LEVEL_TEXT = ("bounded symbolic model checking of the real operator classes of o
               "sub-expression behaviour within the bound and five interleaving patterns (alternating from either side, sequential, one side "
               "abandoned after one pull, one side suspended), each execution's result sequence equals that of a fresh run on the same input")
 
-ENTRIES = ['c12_alt2', 'c12_or2', 'c12_subx']
+ENTRIES = ['c12_alt2', 'c12_or2', 'c12_subx', 'c12_seq_copy']
 
 def modules(ctx):
     MC = 1
     defs = ('VP_T=2', 'VP_MAXC=%d' % MC) + (('VP_C12_QUICK',) if ctx.tier == 'quick' else ())
     m = V.Module(ctx, 'c12', C01.CORE_TUS, 'c12.cc', ENTRIES, defs=defs, native_libs=('-ldl',),
                  native_tus=C01.ALL_CORE, empties=('_ZN10value_type13register_type',))
-    return {'c12': m}
+    native = [t for t in V.ALL_CORE if t != '@gen/parser.cc']
+    p = V.Module(ctx, 'c12p', C01.CORE_TUS + ['tree.cc', 'tree_cr.cc', '@gen/lexer.cc'], 'c12p.cc', ['c12_compile_twice_drop'], native_tus=native,
+                 native_libs=('-ldl',), empties=('_ZN10value_type13register_type',))
+    return {'c12': m, 'c12p': p}
 
 def run(ctx):
-    m = modules(ctx)['c12']
+    ctx.gen_sources(need_parser=True)
+    mods = modules(ctx)
+    m = mods['c12']
     ctx.bounds.update(inputs='2 input stacks; execution ranges [0,1) [0,2) [1,2) for each of two executions', results='<= 1 result per input and sub-expression',
                       patterns='ABAB.., BABA.., A then B, B once / A to the end / B abandoned, A once / B to the end / A to the end', unwind='library loops 7')
     ctx.assumptions += ['operator new never fails', 'the graph is built by the harness as build.cc builds it (parser/builder not encoded)',
@@ -28,8 +33,7 @@ def run(ctx):
     chunk = 3 if ctx.tier == 'quick' else 5
     ctx.bounds['tier_selection'] = ('quick: 3 range pairs x 3 patterns x 4 count vectors = 36 scenarios per graph' if ctx.tier == 'quick' else 'all scenarios')
     jobs = []
-    ents = ENTRIES if ctx.tier != 'quick' else ['c12_alt2', 'c12_or2', 'c12_subx']
-    for e in ents:
+    for e in ['c12_alt2', 'c12_or2', 'c12_subx']:
         if ctx.only and e not in ctx.only:
             continue
         n = 36 if ctx.tier == 'quick' else 9 * 5 * (2 ** (4 if e != 'c12_subx' else 2))
@@ -37,7 +41,16 @@ def run(ctx):
             jobs.append(lambda e=e, lo=lo: V.run_entry(ctx, m, e, 7, timeout=900, bounds='scenarios [%d,%d)' % (lo, lo + chunk), object_bits=14, tv_seeds=0,
                                                        harness_unwind=chunk + 20, cdefs=('VP_LO=%d' % lo, 'VP_HI=%d' % (lo + chunk)),
                                                        label='%s[%d:%d]' % (e, lo, lo + chunk)))
+    if not ctx.only or 'c12_seq_copy' in ctx.only:
+        for lo in range(0, 24, 4):
+            jobs.append(lambda lo=lo: V.run_entry(ctx, m, 'c12_seq_copy', 7, timeout=900, bounds='sequence shapes: scenarios [%d,%d) of length 0..2 x nested x inner 0..1 x copy/clone' % (lo, lo + 4),
+                                                  object_bits=12, tv_seeds=0, harness_unwind=30, cdefs=('VP_LO=%d' % lo, 'VP_HI=%d' % (lo + 4)), label='c12_seq_copy[%d:%d]' % (lo, lo + 4)))
+    if not ctx.only or 'c12_compile_twice_drop' in ctx.only:
+        for lo in range(0, 9, 3):
+            jobs.append(lambda lo=lo: V.run_entry(ctx, mods['c12p'], 'c12_compile_twice_drop', 8, timeout=900, bounds='back quotes of two occurrences: scenarios [%d,%d) of 1..3 x 1..3' % (lo, lo + 3),
+                                                  object_bits=12, tv_seeds=0, harness_unwind=30, cdefs=('VP_LO=%d' % lo, 'VP_HI=%d' % (lo + 3)), label='c12_compile_twice_drop[%d:%d]' % (lo, lo + 3)))
     V.run_parallel(jobs, workers=15)
 
 def replay(ctx, js):
+    ctx.gen_sources(need_parser=True)
     return V.generic_replay(ctx, modules(ctx), js)
